@@ -607,8 +607,6 @@ fn well_formed(f: &Frame) -> bool {
 					if c.len != c.hdr + lens(&refs) { return false; }
 					if !c.attrs.iter().all(|a| leaf(L_CODE, false, a)) { return false; }
 					if c.attrs.iter().filter(|a| a.k == "smt" || a.k == "smap").count() > 1 { return false; }
-					// old-format StackMap with several entries: outside the model (frames handed out depend on label numbering)
-					if c.attrs.iter().any(|a| a.k == "smap" && a.pay.first().copied().unwrap_or(0) > 1) { return false; }
 				}
 			}
 		}
@@ -758,7 +756,7 @@ fn exec(op: &str, args: &[Sexp]) -> Ans {
 			let r = read_stream(&bytes, &fulls);
 			if r.len() == fs.len() && r.iter().zip(&fs).all(|(x, f)| matches!(x, Ok((n, _)) if *n == f.size)) { Ans::pass() } else { Ans::fail("full-read") }
 		}
-		"oracle-replay-projection" | "oracle-replay-masked" => {
+		"oracle-replay-projection" | "oracle-replay-masked" | "oracle-replay-masked-full" => {
 			let (bytes, cfg) = match args { [b, _f, c] => match (b.as_bytes(), Cfg::parse(c)) { (Ok(b), Ok(c)) => (b, c), _ => return bad("args".into()) }, _ => return bad("arity".into()) };
 			let s1 = Stream { bytes: bytes.clone(), cfgs: vec![cfg.clone()] };
 			if full_reads(&s1).is_none() { return Ans::out_of_domain(); }
@@ -771,7 +769,8 @@ fn exec(op: &str, args: &[Sexp]) -> Ans {
 				// where the property asks replay and read to agree: the visitor wants members, frames, and both local variable tables or none
 				let nm = class.methods.len();
 				let ok_code = (0..nm).all(|i| match code_mask(&cfg, i) { Some(cm) => cm.has("smt") && cm.has("lvt") == cm.has("lvtt"), None => true });
-				if !cfg.fields_i || !cfg.methods_i || !ok_code { return Ans::out_of_domain(); }
+				// (`-full`: the property as stated, for every visitor — fails where the code deviates from it)
+				if op == "oracle-replay-masked" && (!cfg.fields_i || !cfg.methods_i || !ok_code) { return Ans::out_of_domain(); }
 				let Ok(rep) = replay(class, &cfg) else { return Ans::fail("replay") };
 				match read_stream(&bytes, std::slice::from_ref(&cfg)).first() {
 					Some(Ok((_, evs))) => if digest(&rep) == digest(evs) { Ans::pass() } else { Ans::fail("replay-masked") },
